@@ -484,7 +484,7 @@ class Builder:
                 m = re.match(r'"((?:[^"\\]|\\.)*)"\s*:\s?(.*)$', val, re.S)
                 if not m:
                     raise Undecided('bad after/before: ' + val)
-                anchor = m.group(1).replace('\\"', '"')
+                anchor = m.group(1).replace('\\"', '"').replace('\\n', '\n')   # \" and \n escapes inside an anchor
                 cnt = body.count(anchor)
                 if cnt != 1:
                     raise Undecided(f'lost anchor: {name}: statement {anchor!r} occurs {cnt} times')
